@@ -79,14 +79,18 @@ def sample_of(p, r, note=None):
     return s
 
 
-def sig_by_seed(p, kind, canon_kinds):
+def sig_by_seed(p, kind, canon_kinds, single_fail=None):
     return f"{p.seed.codemod}|{p.seed.id}|{kind}"
 
 
-def sig_by_context(p, kind, canon_kinds):
-    """For properties whose defect site is the I/O / diff layer rather than a codemod: when the canonical rendering of
-    the seed is fine, the failing context dimension identifies the defect."""
+def sig_by_context(p, kind, canon_kinds, single_fail=None):
+    """For properties whose defect site is the I/O / diff / matching layer rather than a codemod: when the canonical
+    rendering of the seed is fine, the failing context dimension identifies the defect.  A program with several
+    deviations is attributed to the one deviation that already fails alone (for any seed), if there is one."""
     if p.devs and kind not in canon_kinds:
+        alone = [d for d in p.devs if single_fail and d in single_fail.get(kind, ())]
+        if alone:
+            return f"context:{sorted(alone)[0]}|{kind}"
         return f"context:{'+'.join(p.devs)}|{kind}"
     return f"{p.seed.codemod}|{p.seed.id}|{kind}"
 
@@ -105,6 +109,12 @@ def run_monitor(prop, tier, seed, monitor, *, runs_needed=2, select=None, descri
     for p in progs:
         if not p.devs:
             canon[p.seed.id] = {k for k, _ in monitor(p, recs[p.pid])}
+    single_fail = {}
+    for p in progs:
+        if len(p.devs) == 1:
+            for k, _ in monitor(p, recs[p.pid]):
+                if k not in canon.get(p.seed.id, set()):
+                    single_fail.setdefault(k, set()).add(p.devs[0])
     for p in progs:
         r = recs[p.pid]
         n_eval += 1
@@ -117,7 +127,7 @@ def run_monitor(prop, tier, seed, monitor, *, runs_needed=2, select=None, descri
             if len(samples) < 2 and p.devs:
                 samples.append(sample_of(p, r))
         for kind, detail in monitor(p, r):
-            sig = sig_fn(p, kind, canon.get(p.seed.id, set()))
+            sig = sig_fn(p, kind, canon.get(p.seed.id, set()), single_fail)
             c = cands.get(sig)
             if c is None or (p.ndev, len(p.src)) < (c[0].ndev, len(c[0].src)):
                 cands[sig] = (p, kind, detail)
